@@ -2,7 +2,7 @@
   C04, object-layer memory safety as theorems — third continuation (same statement shape `Safe` as C04_allocsafe{,2,3}.lean:
   `ok = true`, destination well formed, every other variable untouched, value-level view = the list-level result; plus the
   integer identity).  Property theorems only; helper lemmas live in MpirProofs/Lemmas/AllocSafeCfdiv2.lean (mpz/cfdiv_q_2exp.c),
-  AllocSafeAorsmul.lean (mpz/aorsmul_i.c, aorsmul.c).
+  AllocSafeAorsmul.lean (mpz/aorsmul_i.c, aorsmul.c), AllocSafeMulC.lean (mpz/mul.c).
 
   Models: Mpir/Model/AllocSafeMpz3.lean (cfdiv_q_2exp), Mpir/Model/AllocSafeMpz4.lean (everything else here).
   Tied by ops `as3_cdiv_q_2exp`, `as3_fdiv_q_2exp` (part c04_allocsafe3) and `as4_*` (harness/ops_allocsafe4.c; ALLOC SIZ value
@@ -11,6 +11,7 @@
 import MpirProofs.Props.C04_allocsafe3
 import MpirProofs.Lemmas.AllocSafeCfdiv2
 import MpirProofs.Lemmas.AllocSafeAorsmul
+import MpirProofs.Lemmas.AllocSafeMulC
 import MpirProofs.Props.C01_mpz
 namespace Mpir.AllocSafe
 open Mpir
@@ -144,5 +145,44 @@ example : (mpz_addmul ex4 0 2 1).ok = true ∧ view ((mpz_addmul ex4 0 2 1).h 0)
 example : (aorsmul (fun a b => max (a + 1) b) false ex4 3 2 2 false).ok = false := by decide
 -- … and goes unnoticed whenever no carry comes out (5 += (B^2-1)*(B^2-1))
 example : (aorsmul (fun a b => max (a + 1) b) false ex4 0 2 2 false).ok = true := by decide
+
+/-! ## mpz_mul (mpz/mul.c) -/
+
+/-- mpz_mul (mpz/mul.c), for every threshold, sign, allocation and alias pattern (w == u, w == v, u == v, all one variable):
+    * one-limb v: `MPZ_REALLOC (w, usize+1)` covers `wp[usize] = cy_limb`; `PTR(v)[0]` and `PTR(u)` are read after the
+      reallocation (w may be u or v);
+    * basecase shortcut (w neither operand): `MPZ_REALLOC (w, usize + vsize)`, `wp[wsize - 1]` inside what was written;
+    * generic path: when the block is too small a FRESH block of exactly `usize + vsize` limbs is installed whose contents
+      are not copied — the operands are read from the old block, which is kept (`free_me`) exactly when w is u or v, and
+      from their own blocks otherwise; when the block is large enough an operand that is w is copied to temporary space
+      first (v kept identical to u when all three coincide); `mpn_sqr` + `wp[2*usize-1]` resp. `mpn_mul`.
+    The allocation left is `wsize` if the block was smaller, else unchanged; the product is exact. -/
+theorem mpz_mul_alloc_safe (thr : Nat) (s : St) (w u v : Nat) (hs : s.ok = true)
+    (hw : OWF (s.h w)) (hu : OWF (s.h u)) (hv : OWF (s.h v)) :
+    Safe s (mul thr true 1 s w u v) w (Mpz.mul thr ⟨w == u, w == v, u == v⟩ (view (s.h w)) (view (s.h u)) (view (s.h v))) ∧
+    Mpz.toInt (view ((mul thr true 1 s w u v).h w)) = Mpz.toInt (view (s.h u)) * Mpz.toInt (view (s.h v)) := by
+  have R := mul_refines thr s w u v hs hw hu hv
+  have E := Mpz.mpz_mul_exact thr ⟨w == u, w == v, u == v⟩ (view (s.h w)) (view (s.h u)) (view (s.h v)) hw.2.1 hu.2 hv.2
+    (by intro h; have : u = v := by simpa using h
+        rw [this])
+  refine ⟨R.safe E.2, ?_⟩
+  rw [R.view]; exact E.1
+
+-- (B^2-1)^2 in place through one variable (w == u == v), exact block of 2: fresh block of 4, operands read from the kept old block
+example : (mpz_mul ex4 2 2 2).ok = true ∧ view ((mpz_mul ex4 2 2 2).h 2) = ⟨4, 4, [1, 0, B - 2, B - 1]⟩ := by decide
+-- (B^3-1)*(B^2-1) into the 2-limb variable that is also v (free_me), and into a distinct one-limb destination (freed at once)
+example : (mpz_mul ex4 2 3 2).ok = true ∧ (mpz_mul ex4 2 3 2).ALLOC 2 = 5 ∧
+    Mpz.toInt (view ((mpz_mul ex4 2 3 2).h 2)) = ((B : Int) ^ 3 - 1) * ((B : Int) ^ 2 - 1) := by decide
+example : (mpz_mul ex4 0 3 2).ok = true ∧ (mpz_mul ex4 0 3 2).ALLOC 0 = 5 := by decide
+-- B * B in a block with room (w == u == v, alloc 4): temporary copy, squaring, top limb zero
+example : view ((mpz_mul ⟨fun _ => ⟨2, 0, ⟨4, [0, 1, junk, junk]⟩⟩, true⟩ 0 0 0).h 0) = ⟨4, 3, [0, 0, 1]⟩ := by decide
+-- (B^2-1) * 3 in place (one-limb v): block grown 2 → 3
+example : (mpz_mul ex4 2 2 1).ok = true ∧ view ((mpz_mul ex4 2 2 1).h 2) = ⟨3, 3, [B - 3, B - 1, 2]⟩ := by decide
+-- negative: the old block freed at once although w is an operand (no `free_me`): the operands are read through dangling pointers
+example : (mul 17 false 1 ex4 2 2 2).ok = false := by decide
+example : (mul 17 false 1 ex4 2 3 2).ok = false := by decide
+-- … harmless when w is neither operand; negative: `MPZ_REALLOC (w, usize)` in the one-limb path
+example : (mul 17 false 1 ex4 0 3 2).ok = true := by decide
+example : (mul 17 true 0 ex4 2 2 1).ok = false := by decide
 
 end Mpir.AllocSafe
